@@ -24,7 +24,8 @@ import (
 )
 
 type c10op struct {
-	kind byte // 'w' peer writes data, 'r' peer waits for one request frame, 'c' a caller starts SendMessage(typ), 'x' peer closes
+	kind byte // 'w' peer writes data, 'r' peer waits for one request frame, 'c' a caller starts SendMessage(typ), 'x' peer closes,
+	// 'C' a caller with a 150 ms deadline starts SendMessage(typ) (it gives up; its result is not part of the observation), 'p' the peer pauses typ ms
 	s    *vstream
 	typ  int
 }
@@ -311,6 +312,14 @@ func c10Scenarios(seed uint64, thorough bool) []c10scn {
 	sd("othertype", wraw(c10frame{1, 12, 0, statusPayload(0)}.bytes()))
 	sd("undecodable", wraw(c10frame{1, 4, 0, []byte{1, 2, 3}}.bytes()))
 	sd("silent", wraw(nil))
+	// a reply that trickles in while its caller gives up: header and part of the payload, a pause longer than the caller's
+	// deadline, the rest; then an ordinary exchange on the same connection (the stream must still be served) and the end
+	for _, cut := range []int{10, 11, 14, 17} {
+		rep := c10frame{1, 12, 0, statusPayload(0)}.bytes()
+		rep2 := c10frame{1, 12, 1, statusPayload(0)}.bytes()
+		add(mk(fmt.Sprintf("trickle:cut%d", cut), 1, []c10op{gr, {kind: 'C', typ: 2}, {kind: 'r'}, wraw(rep[:cut]), {kind: 'p', typ: 300},
+			wraw(rep[cut:]), {kind: 'c', typ: 2}, {kind: 'r'}, wraw(rep2)}))
+	}
 	return out
 }
 
@@ -374,6 +383,7 @@ func (s c10scn) run() (req, obs string) {
 		res      chan string
 		done     chan struct{}
 		shutdown bool
+		hidden   bool // an impatient caller ('C'): registered, but what it gets is its own context's business
 	}
 	sdArg := ""
 	var callers []*caller
@@ -457,6 +467,25 @@ func (s c10scn) run() (req, obs string) {
 				}
 				cl.res <- fmt.Sprintf("ok:%d:%d:%d", rt, len(data), vfnv(fnvOff, data))
 			}()
+		case 'p':
+			time.Sleep(time.Duration(op.typ) * time.Millisecond)
+		case 'C':
+			cl := &caller{res: make(chan string, 1), done: make(chan struct{}), hidden: true}
+			callers = append(callers, cl)
+			pending = cl
+			typ := MessageType(op.typ)
+			go func() {
+				defer close(cl.done)
+				defer func() {
+					if r := recover(); r != nil {
+						cl.res <- "panic"
+					}
+				}()
+				ctx, cancel := context.WithTimeout(context.Background(), 150*time.Millisecond)
+				defer cancel()
+				_, _, err := c.SendMessage(ctx, typ, nil)
+				cl.res <- errClass(err)
+			}()
 		case 's':
 			cl := &caller{res: make(chan string, 1), done: make(chan struct{}), shutdown: true}
 			callers = append(callers, cl)
@@ -537,8 +566,14 @@ func (s c10scn) run() (req, obs string) {
 		if cl.shutdown && r != "nil" && r != "timeout" && r != "panic" {
 			r = "err"
 		}
+		if cl.hidden {
+			if r == "panic" {
+				cres = append(cres, cl.id+"=panic")
+			}
+			continue
+		}
 		cres = append(cres, cl.id+"="+r)
-		if !cl.shutdown {
+		if !cl.shutdown && !cl.hidden {
 			cids = append(cids, cl.id)
 		}
 	}
